@@ -57,6 +57,9 @@ pub struct St {
     pub atomics: Vec<u64>,
     pub mowner: Vec<Option<u8>>,
     pub mrel: Vec<VC>,
+    /// the protected values (mutexes, rwlocks)
+    pub mval: Vec<u64>,
+    pub rwval: Vec<u64>,
     pub rww: Vec<Option<u8>>,
     pub rwr: Vec<u8>,
     pub rwrel: Vec<VC>,
@@ -117,6 +120,8 @@ impl St {
             atomics: o.atomics.clone(),
             mowner: vec![None; o.mutexes],
             mrel: vec![[0; MAXT]; o.mutexes],
+            mval: vec![0; o.mutexes],
+            rwval: vec![0; o.rwlocks],
             rww: vec![None; o.rwlocks],
             rwr: vec![0; o.rwlocks],
             rwrel: vec![[0; MAXT]; o.rwlocks],
@@ -396,6 +401,36 @@ impl St {
                 let vc = s.th[t].vc;
                 vjoin(&mut s.rwrel[l], &vc);
                 fin!(s, Res::U)
+            }
+            K::GSet { m: mx, v } => {
+                assert_eq!(s.mowner[mx], Some(t as u8), "ill-formed program: gset without the mutex");
+                s.mval[mx] = v;
+                fin!(s, Res::U)
+            }
+            K::GGet { m: mx } => {
+                assert_eq!(s.mowner[mx], Some(t as u8), "ill-formed program: gget without the mutex");
+                let v = s.mval[mx];
+                fin!(s, Res::V(v))
+            }
+            K::LSet { l, v } => {
+                assert_eq!(s.rww[l], Some(t as u8), "ill-formed program: lset without the write lock");
+                s.rwval[l] = v;
+                fin!(s, Res::U)
+            }
+            K::LGet { l } => {
+                assert!(s.rww[l] == Some(t as u8) || s.rwr[l] & (1 << t) != 0, "ill-formed program: lget without a guard");
+                let v = s.rwval[l];
+                fin!(s, Res::V(v))
+            }
+            K::MGetMut { m: mx } | K::MIntoInner { m: mx } => {
+                assert!(s.mowner[mx].is_none(), "ill-formed program: get_mut / into_inner of a held mutex");
+                let v = s.mval[mx];
+                fin!(s, Res::V(v))
+            }
+            K::LGetMut { l } | K::LIntoInner { l } => {
+                assert!(s.rww[l].is_none() && s.rwr[l] == 0, "ill-formed program: get_mut / into_inner of a held rwlock");
+                let v = s.rwval[l];
+                fin!(s, Res::V(v))
             }
             K::Wait { cv, m: mx } => {
                 assert_eq!(s.mowner[mx], Some(t as u8), "ill-formed program: wait without the mutex");
